@@ -2319,3 +2319,24 @@ where
         f.debug_list().entries(self).finish()
     }
 }
+
+/// Verification hooks: read-only layout accessors and a raw pointer to the storage slots, used
+/// by the out-of-tree deterministic simulator to fill *unoccupied* slots with garbage patterns
+/// and to measure layout coverage. Compiled only with `--cfg circular_buffer_verif`; never part
+/// of a normal build.
+#[cfg(circular_buffer_verif)]
+impl<const N: usize, T> CircularBuffer<N, T> {
+    /// Returns `(start, size)`.
+    #[doc(hidden)]
+    #[inline]
+    pub fn verif_layout(&self) -> (usize, usize) {
+        (self.start, self.size)
+    }
+
+    /// Returns `(start, size, pointer to the first of the N storage slots)`.
+    #[doc(hidden)]
+    #[inline]
+    pub fn verif_raw_parts(&mut self) -> (usize, usize, *mut MaybeUninit<T>) {
+        (self.start, self.size, self.items.as_mut_ptr())
+    }
+}
